@@ -12,6 +12,8 @@ def build_obs(tier, tables):
     # longer window (room for ${NAME:-default}, \\x41, 4-digit escapes, longer words) on one scratch variant
     obs += lex_step_obs(tables, ["CHK_C03", "CHK_C15"], tier, "c03", windows=[7] if tier == "quick" else [7, 9], checks="none",
                         variants=("fill2", "fill5"), envw=2 if tier == "quick" else 3)
+    if tier != "quick":
+        obs += lex_step_obs(tables, ["CHK_C03", "CHK_C15"], tier, "c03", windows=[6], checks="none")
     # an unterminated single-quoted string is rejected also when it ends an included file
     obs += [o for o in pop_obs("c03") if "-sc3-" in o.key]
     return obs
